@@ -57,6 +57,23 @@ def build_all(prop_modules, arr=False):
         notes["lake_build_s"] = round(time.time() - t0, 1)
         if rc != 0:
             notes["lake_build_tail"] = out[-3000:]
+        if not arr:
+            # translation tie: regenerate SLV/Gen/*.lean from /repo's current source text and re-check, in the kernel,
+            # that the generated definitions equal the hand-written model
+            t0 = time.time()
+            rc_g, out_g = sh([os.path.join(ROOT, "tools", "regen.sh")], cwd=ROOT)
+            notes["tie_regen_rc"] = rc_g
+            if rc_g != 0:
+                notes["tie_problem"] = "translator failed: " + out_g[-800:]
+            else:
+                rc_t, out_t = sh(["lake", "build", "SLV.Gen.BiTie", "SLV.Gen.MulTie"], cwd=LEAN)
+                notes["tie_build_rc"] = rc_t
+                if rc_t != 0:
+                    import re as _re
+                    locs = sorted(set(_re.findall(r"(SLV/Gen/\w+\.lean:\d+)", out_t)))
+                    notes["tie_problem"] = "tie theorems no longer check at " + ", ".join(locs[:12])
+                    notes["tie_tail"] = out_t[-1500:]
+            notes["tie_s"] = round(time.time() - t0, 1)
         t0 = time.time()
         rc2, out2 = sh(["cargo", "build", "--release", "--offline"], cwd=HARNESS_ARR if arr else HARNESS)
         notes["cargo_build_rc"] = rc2
